@@ -106,6 +106,7 @@ def run(an: Analysis, rep):
                                     "so parameters listed in another order bind the wrong values")
     rep.run(c04.r045, an, SharedRules(rep, "R05.D", "the decoder takes the docstring from co_consts[0] whenever that is a str (shared with C04's R04.5): a docstring the data does not hold is an "
                                                    "unreferenced constant for normalize - it is dropped and the re-encoded function has no __doc__"))
+    rep.run(c04.r041, an, sha)
     rep.run(c04.r043, an, sha)
     rep.run(c04.r044, an, sha)
     rep.run(c06.reset_rules, an, SharedRules(rep, "R05.Z", "normalize strips every positional artefact together (shared with C06's R06.1/R06.2): an override kept on one kind of table entry while the list of "
